@@ -59,15 +59,16 @@ type heldq struct {
 }
 
 type world struct {
-	net      *fakenet.Net
-	stream   bool
-	freshBad atomic.Bool // new connections are born dying (EOF on first query)
-	mu       sync.Mutex
-	attempts map[int][]*fakenet.Conn // seq -> conns that carried it (distinct, in order)
-	starts   map[int]int64           // seq -> event counter at call start
-	kind     string
-	seen     map[int]chan struct{}
-	nrep     int
+	net        *fakenet.Net
+	stream     bool
+	freshBad   atomic.Bool // new connections are born dying (EOF on first query)
+	mu         sync.Mutex
+	attempts   map[int][]*fakenet.Conn // seq -> conns that carried it (distinct, in order)
+	starts     map[int]int64           // seq -> event counter at call start
+	kind       string
+	closeDelay time.Duration
+	seen       map[int]chan struct{}
+	nrep       int
 }
 
 func newWorld(stream bool) *world {
@@ -85,6 +86,7 @@ func (w *world) newConn() *fakenet.Conn {
 		cs.mode = hold
 	}
 	c := w.net.NewConnUser(w.stream, cs)
+	c.CloseDelay = w.closeDelay
 	c.OnWrite = w.onWrite
 	c.OnWriteFail = w.onWriteFail
 	return c
@@ -102,7 +104,11 @@ func (w *world) onWrite(c *fakenet.Conn, data []byte) error {
 	cs.mu.Unlock()
 	for _, f := range frames {
 		qi, err := dnsadv.ParseQuery(f)
-		if err != nil || qi.Seq < 0 {
+		w.mu.Lock()
+		_, known := w.starts[qi.Seq]
+		w.mu.Unlock()
+		if err != nil || qi.Seq < 0 || !known {
+			rep.Violation("bytes-on-wire-are-no-callers-query-"+w.kind, fmt.Sprintf("the transport wrote a frame that is not the query of any caller (parse error %v, name %q): a retransmission sent corrupted bytes", err, qi.Name), map[string]any{"conn": c.ID, "frame_hex": fmt.Sprintf("%x", trunc(f, 64))})
 			continue
 		}
 		cs.mu.Lock()
@@ -262,6 +268,7 @@ type scen struct {
 	Seed      int64  `json:"seed"`
 	Procs     int    `json:"gomaxprocs"`
 	Perturb   bool   `json:"perturb"`
+	CloseMs   int    `json:"close_delay_ms"` // Close() of a connection takes this long (slow close)
 }
 
 func (s scen) bound() int {
@@ -352,7 +359,10 @@ func doCall(w *world, t exch, timeout time.Duration, trClosed *atomic.Bool) call
 }
 
 // judge applies the statement's table to one finished call.
-func judge(w *world, s scen, cr callRes, serverWorksFresh bool) {
+// deadAvail: number of dead (killed) reused connections the call can have met in
+// this scenario, or -1 if unknown. A call may only exhaust its attempt bound if
+// at least that many distinct dead connections exist.
+func judge(w *world, s scen, cr callRes, serverWorksFresh bool, deadAvail int) {
 	rep.Eval(1)
 	w.mu.Lock()
 	att := append([]*fakenet.Conn(nil), w.attempts[cr.seq]...)
@@ -412,6 +422,8 @@ func judge(w *world, s scen, cr callRes, serverWorksFresh bool) {
 		// connection (e.g. the server closed it before first use). Not decidable
 		// from the log -> not judged.
 		rep.Count("fail_not_judged:writeless_attempt_and_conn_opened_during_call", 1)
+	case nAtt >= s.bound() && deadAvail >= 0 && deadAvail < s.bound() && serverWorksFresh:
+		rep.Violation("attempts-wasted-on-same-dead-conn-"+s.Transport, fmt.Sprintf("call failed (%v) after %d attempts although only %d reused connection(s) were dead and a fresh connection works: the retries did not move to another connection", cr.err, nAtt, deadAvail), wit)
 	case nAtt >= s.bound():
 		rep.Count("fail_legit:bound_reached", 1)
 		rep.Nontrivial(fmt.Sprintf("%s|%s|bound|att%d|seed%d|q%d", s.Transport, s.Script, len(att), s.Seed, cr.seq))
@@ -439,6 +451,13 @@ func deadConnCreatedDuring(w *world, cr callRes) bool {
 		}
 	}
 	return false
+}
+
+func trunc(b []byte, n int) []byte {
+	if len(b) > n {
+		return b[:n]
+	}
+	return b
 }
 
 func setup(s scen) {
@@ -502,6 +521,7 @@ func scriptPool(s scen) {
 	setup(s)
 	w := newWorld(s.Stream)
 	w.kind = s.Transport
+	w.closeDelay = time.Duration(s.CloseMs) * time.Millisecond
 	t := makeTransport(w, s)
 	defer t.Close()
 	if !warm(w, t, s, s.Warm) {
@@ -551,7 +571,7 @@ func scriptPool(s scen) {
 	}
 	wg.Wait()
 	for _, r := range res {
-		judge(w, s, r, !s.FreshBad)
+		judge(w, s, r, !s.FreshBad, k)
 		if s.How == "closed-while-idle" && r.err == nil {
 			w.mu.Lock()
 			n := len(w.attempts[r.seq])
@@ -585,6 +605,7 @@ func scriptStream(s scen) {
 	setup(s)
 	w := newWorld(s.Stream)
 	w.kind = s.Transport
+	w.closeDelay = time.Duration(s.CloseMs) * time.Millisecond
 	t := makeTransport(w, s)
 	defer t.Close()
 	var wg sync.WaitGroup
@@ -632,7 +653,7 @@ func scriptStream(s scen) {
 					mu.Unlock()
 				}
 				r := doCall(w, t, 5*time.Second, nil)
-				judge(w, s, r, true)
+				judge(w, s, r, true, -1)
 			}
 		}()
 	}
@@ -646,6 +667,7 @@ func scriptInflight(s scen) {
 	setup(s)
 	w := newWorld(s.Stream)
 	w.kind = s.Transport
+	w.closeDelay = time.Duration(s.CloseMs) * time.Millisecond
 	t := makeTransport(w, s)
 	defer t.Close()
 	// one warm connection so that the in-flight queries ride a REUSED connection
@@ -693,7 +715,7 @@ func scriptInflight(s scen) {
 	rep.Count("inflight_scenarios", 1)
 	rep.Max("max_queries_in_flight_on_killed_conn", int64(inflight))
 	for _, r := range res {
-		judge(w, s, r, true)
+		judge(w, s, r, true, 1)
 		if r.err != nil && r.ctxErr == nil {
 			// in this script a fresh connection always works and only ONE reused connection dies:
 			// every call must succeed
@@ -760,7 +782,7 @@ func main() {
 							}
 							n++
 							scriptPool(scen{Transport: x.t, Stream: x.stream, L: x.L, Script: "pool", Warm: warmN * x.L, Poison: poison, How: how, Probes: probes, FreshBad: fb,
-								Seed: rng.Int63n(1 << 40), Procs: procs[rng.Intn(3)], Perturb: rng.Intn(2) == 0})
+								Seed: rng.Int63n(1 << 40), Procs: procs[rng.Intn(3)], Perturb: rng.Intn(2) == 0, CloseMs: []int{0, 0, 2, 20}[rng.Intn(4)]})
 						}
 					}
 				}
@@ -773,14 +795,14 @@ func main() {
 		}
 		for k := 1; k <= x.L+2; k++ {
 			for r := 0; r < rep.Pick(3, 20); r++ {
-				scriptInflight(scen{Transport: x.t, Stream: x.stream, L: x.L, Script: "inflight", Probes: k, Seed: rng.Int63n(1 << 40), Procs: procs[rng.Intn(3)], Perturb: rng.Intn(2) == 0})
+				scriptInflight(scen{Transport: x.t, Stream: x.stream, L: x.L, Script: "inflight", Probes: k, Seed: rng.Int63n(1 << 40), Procs: procs[rng.Intn(3)], Perturb: rng.Intn(2) == 0, CloseMs: []int{0, 2, 20}[r%3]})
 			}
 		}
 	}
 	for _, x := range tls {
 		for _, conc := range []int{1, 2, 4} {
 			for r := 0; r < rep.Pick(2, 12); r++ {
-				scriptStream(scen{Transport: x.t, Stream: x.stream, L: x.L, Script: "stream", Len: 200, Conc: conc, Seed: rng.Int63n(1 << 40), Procs: procs[rng.Intn(3)], Perturb: rng.Intn(2) == 0})
+				scriptStream(scen{Transport: x.t, Stream: x.stream, L: x.L, Script: "stream", Len: 200, Conc: conc, Seed: rng.Int63n(1 << 40), Procs: procs[rng.Intn(3)], Perturb: rng.Intn(2) == 0, CloseMs: []int{0, 2}[r%2]})
 			}
 		}
 	}
